@@ -6,6 +6,7 @@ import Larking.Lemmas.Complete
 import Larking.Lemmas.LexerComplete
 import Larking.Lemmas.Routes
 import Larking.Lemmas.VarIndexComplete
+import Larking.Lemmas.LiteralRoute
 /-
   C02 — Routing completeness, literal-over-wildcard precedence, order independence.
 -/
@@ -244,6 +245,29 @@ theorem grammar_binding_edges (resolve : List Bytes → Option Nat) (b : Binding
     bindingEdges Gen.tokenCap resolve b = some t.edges :=
   bindingEdges_of_grammar Gen.tokenCap resolve b t ht hb hcap hres
 
+/-- **String level, literal templates** (every method's implicit `/pkg.Service/Method` route is
+one): for every accepted list of rules, a binding whose template is
+`"/" LITERAL { "/" LITERAL } [ ":" LITERAL ]`, and a request whose path is that very text (its
+segments being path characters, '/' and ':' spelled in ASCII), `path.match` dispatches the
+request for the binding's kind — lexTemplate, addRule's token loop, the insertion, every later
+insertion, lexPath and the search composed. -/
+theorem literal_route_dispatches (conv) (hconv : ∀ f t, conv f t = true) (g : Bytes → List Tok)
+    (rs : List (Rule × Nat × (List Bytes → Option Nat))) (t : Node)
+    (hb : buildAll Gen.tokenCap rs .empty = .ok t)
+    (hg : ∀ e ∈ rs, ∀ b ∈ e.1.bindings, BindingG Gen.tokenCap g e.2.2 b)
+    (e) (he : e ∈ rs) (b : Binding) (hbm : b ∈ e.1.bindings)
+    (l : LitTmpl) (hwf : l.toTmpl.Wf) (hbt : b.tmpl = l.toTmpl.render)
+    (hcap : l.toTmpl.toks.length ≤ Gen.tokenCap)
+    (hpath : WfPath l.segs) (hpcap : 2 * l.segs.length + 1 ≤ Gen.tokenCap) (ha : l.Ascii)
+    (verb : Bytes) (hk : b.verb = starVerb ∨ verb = b.verb) :
+    ∃ m caps, matchPath Gen.tokenCap conv t b.tmpl verb = .found m caps := by
+  have hes := grammar_binding_edges e.2.2 b l.toTmpl hwf hbt hcap (l.resolves e.2.2)
+  have hi := l.edgeInst ha (l.seps_of_wf hwf)
+  obtain ⟨m, caps, hs⟩ := accepted_rules_route_their_instances conv hconv g rs t hb hg e he b hbm
+    l.toTmpl.edges hes verb _ hi hk
+  refine ⟨m, caps, ?_⟩
+  simp only [matchPath, hbt, l.render_eq, lexPath_complete Gen.tokenCap l.segs hpath hpcap, hs]
+
 -- non-vacuity: GET "/v/{a=s/*}" and the request tokens of "/v/s/x"
 private def pu (c : Nat) : Rune := ⟨[UInt8.ofNat c], c, false, false, false, false⟩
 private def le (c : Nat) : Rune := ⟨[UInt8.ofNat c], c, true, true, true, true⟩
@@ -267,6 +291,24 @@ example : EdgeInst esEx reqEx :=
         (.slash _ _ _ _ _ rfl rfl
           (.star _ [] [⟨.path, [120]⟩, ⟨.eof, []⟩] [] [] rfl (by simp) (by decide) (by simp) (.nil []))))
       (.nil [] (by simp)))
+private def lEx : LitTmpl :=
+  { slash := pu 47, first := [le 97], more := [(pu 47, [le 98])], verb := some (pu 58, [le 99]) }   -- "/a/b:c"
+example : lEx.toTmpl.Wf ∧ WfPath lEx.segs ∧ lEx.Ascii ∧ lEx.toTmpl.toks.length ≤ Gen.tokenCap := by
+  refine ⟨⟨by decide, ⟨⟨_, _, rfl, rfl⟩, by decide⟩, ?_, by decide, by decide, by decide⟩, ?_, ?_, by decide⟩
+  · intro p hp
+    simp only [lEx, LitTmpl.toTmpl, List.map_cons, List.map_nil, List.mem_singleton] at hp
+    subst hp
+    exact ⟨by decide, ⟨⟨_, _, rfl, rfl⟩, by decide⟩⟩
+  · intro p hp
+    simp only [lEx, LitTmpl.segs, Option.toList, List.cons_append, List.nil_append, List.mem_cons, List.mem_nil_iff, or_false] at hp
+    rcases hp with h | h | h <;> subst h <;> decide
+  · refine ⟨by decide, ?_, ?_⟩
+    · intro p hp
+      simp only [lEx, List.mem_singleton] at hp
+      subst hp; decide
+    · intro p hp
+      simp only [lEx, Option.some.injEq] at hp
+      subst hp; decide
 example : BindingG Gen.tokenCap (fun _ => [⟨.literal, [115]⟩, ⟨.slash, [47]⟩, ⟨.star, [42]⟩]) (fun _ => some 0) bEx := by
   intro es he e hmem
   have h2 : bindingEdges Gen.tokenCap (fun _ => some 0) bEx = some esEx := by decide
@@ -290,3 +332,4 @@ end Larking.Props.C02
 #print axioms Larking.Props.C02.variable_index_complete
 #print axioms Larking.Props.C02.accepted_rules_route_their_instances
 #print axioms Larking.Props.C02.grammar_binding_edges
+#print axioms Larking.Props.C02.literal_route_dispatches
